@@ -1753,57 +1753,71 @@ impl<'de> de::MapAccess<'de> for Compound<'_, 'de> {
                     TypeInner::Record(fields) => fields,
                     _ => unreachable!(),
                 };
-                match (expect_fields.get(*expect_idx), wire_fields.get(*wire_idx)) {
-                    (Some(e), Some(w)) => {
-                        use std::cmp::Ordering;
-                        match e.id.get_id().cmp(&w.id.get_id()) {
-                            Ordering::Equal => {
-                                self.de.set_field_name(e.id.clone());
-                                self.de.expect_type = e.ty.clone();
-                                self.de.wire_type = w.ty.clone();
-                                *expect_idx += 1;
-                                *wire_idx += 1;
-                            }
-                            Ordering::Less => {
-                                // by subtyping rules, expect_type can only be opt, reserved or null.
-                                let field = e.id.clone();
-                                self.de.set_field_name(field.clone());
-                                let expect = e.ty.clone();
-                                *expect_idx += 1;
-                                self.de.expect_type = self
-                                    .de
-                                    .table
-                                    .trace_type_with_depth(&expect, &self.de.recursion_depth)?;
-                                check!(
-                                    matches!(
-                                        self.de.expect_type.as_ref(),
-                                        TypeInner::Opt(_) | TypeInner::Reserved | TypeInner::Null
-                                    ),
-                                    format!("field {field} is not optional field")
-                                );
-                                self.de.wire_type = TypeInner::Null.into();
-                            }
-                            Ordering::Greater => {
-                                self.de.set_field_name(Label::Named("_".to_owned()).into());
-                                self.de.wire_type = w.ty.clone();
-                                self.de.expect_type = TypeInner::Reserved.into();
-                                *wire_idx += 1;
+                loop {
+                    // A wire field the expected record does not have is skipped right here.
+                    // (It used to be handed to the visitor under the made-up name "_", which
+                    // a record can legitimately use for a field of its own.)
+                    let surplus = match (expect_fields.get(*expect_idx), wire_fields.get(*wire_idx))
+                    {
+                        (Some(e), Some(w)) => {
+                            use std::cmp::Ordering;
+                            match e.id.get_id().cmp(&w.id.get_id()) {
+                                Ordering::Equal => {
+                                    self.de.set_field_name(e.id.clone());
+                                    self.de.expect_type = e.ty.clone();
+                                    self.de.wire_type = w.ty.clone();
+                                    *expect_idx += 1;
+                                    *wire_idx += 1;
+                                    None
+                                }
+                                Ordering::Less => {
+                                    // by subtyping rules, expect_type can only be opt, reserved or null.
+                                    let field = e.id.clone();
+                                    self.de.set_field_name(field.clone());
+                                    let expect = e.ty.clone();
+                                    *expect_idx += 1;
+                                    self.de.expect_type = self
+                                        .de
+                                        .table
+                                        .trace_type_with_depth(&expect, &self.de.recursion_depth)?;
+                                    check!(
+                                        matches!(
+                                            self.de.expect_type.as_ref(),
+                                            TypeInner::Opt(_)
+                                                | TypeInner::Reserved
+                                                | TypeInner::Null
+                                        ),
+                                        format!("field {field} is not optional field")
+                                    );
+                                    self.de.wire_type = TypeInner::Null.into();
+                                    None
+                                }
+                                Ordering::Greater => Some(w.ty.clone()),
                             }
                         }
+                        (None, Some(w)) => Some(w.ty.clone()),
+                        (Some(e), None) => {
+                            self.de.set_field_name(e.id.clone());
+                            self.de.expect_type = e.ty.clone();
+                            self.de.wire_type = TypeInner::Null.into();
+                            *expect_idx += 1;
+                            None
+                        }
+                        (None, None) => return Ok(None),
+                    };
+                    match surplus {
+                        None => break,
+                        Some(ty) => {
+                            *wire_idx += 1;
+                            // same charge as a key, a one-character name and a value used to cost
+                            self.de.add_cost(6)?;
+                            self.de.wire_type = ty;
+                            de::Deserializer::deserialize_ignored_any(
+                                &mut *self.de,
+                                de::IgnoredAny,
+                            )?;
+                        }
                     }
-                    (None, Some(_)) => {
-                        self.de.set_field_name(Label::Named("_".to_owned()).into());
-                        self.de.wire_type = wire_fields[*wire_idx].ty.clone();
-                        self.de.expect_type = TypeInner::Reserved.into();
-                        *wire_idx += 1;
-                    }
-                    (Some(e), None) => {
-                        self.de.set_field_name(e.id.clone());
-                        self.de.expect_type = e.ty.clone();
-                        self.de.wire_type = TypeInner::Null.into();
-                        *expect_idx += 1;
-                    }
-                    (None, None) => return Ok(None),
                 }
                 seed.deserialize(&mut *self.de).map(Some)
             }
